@@ -665,6 +665,8 @@ func genSkeleton() string {
 	b.WriteString("def resizeUses : List (String × String) := [\n  " + strings.Join(genResizeUses(), ",\n  ") + "\n]\n")
 	b.WriteString("\n/-- every assignment to a field of a struct declared in the module: (pkg.Func, pkg.Type, field, `local`: the struct is a\n    variable built in this function | `shared`: anything else) -/\n")
 	b.WriteString("def fieldWrites : List (String × String × String × String) := [\n  " + strings.Join(genFieldWrites(), ",\n  ") + "\n]\n")
+	b.WriteString("\n/-- every function of fstxn/commit.go with the kinds of its statements in source order (as `shrinkerSpawn`) -/\n")
+	b.WriteString("def abortPaths : List (String × List String) := [\n  " + strings.Join(genAbortPaths(), ",\n  ") + "\n]\n")
 	b.WriteString("\nend GoNfsd.Gen.Skeleton\n")
 	return b.String()
 }
